@@ -33,17 +33,7 @@ def mag_value(m):
 
 
 def factor_small(n):
-    out = {}
-    from intconv import _small_primes
-    for p in _small_primes():
-        if p * p > n:
-            break
-        while n % p == 0:
-            out[p] = out.get(p, 0) + 1
-            n //= p
-    if n > 1:
-        out[n] = out.get(n, 0) + 1
-    return out
+    return aulib.factor(n)
 
 
 def frac_to_mag(fr):
